@@ -248,9 +248,19 @@ def run_xpath(chk, F, CG, rid="R-XPATH"):
     if len(tm) < 30:
         raise AnalysisBroken("tag table of the XML reader not found (%d entries)" % len(tm))
     ps = F.fn("UTAP::Path::str")
-    sw = [n for n in walk(ps["body"]) if n.get("k") == "switch"]
+    # the tag -> segment mapping: a switch over tag_t with string literals, in Path::str or in a helper it calls
+    cands = [ps]
+    for c in calls(ps["body"]):
+        for t in CG.targets(c):
+            if t.get("body") is not None and (t.get("file") or "").endswith("xmlreader.cpp"):
+                cands.append(t)
+    sw = []
+    for cf in cands:
+        for n in walk(cf["body"]):
+            if n.get("k") == "switch" and sum(1 for x in walk(n) if x.get("k") == "str") >= 20:
+                sw.append(n)
     if not sw:
-        raise AnalysisBroken("Path::str has no switch")
+        raise AnalysisBroken("neither Path::str nor a helper it calls maps tags to path segments in a switch")
     seg = {}
     cur = []
     for st in sw[0]["body"].get("s", []):
@@ -267,7 +277,10 @@ def run_xpath(chk, F, CG, rid="R-XPATH"):
             strs = [x["v"] for x in walk(st) if x.get("k") == "str"]
             counts = [y["name"] for c in calls(st, "count") for y in walk(c.get("args", [])) if y.get("dk") == "enumerator"]
             for t in cur:
-                seg[t] = (strs, counts)
+                if t not in seg or strs:
+                    seg[t] = (strs, counts)
+            if st.get("k") in ("return", "throw"):
+                cur = []
     # which tags can be on the path of a diagnostic: a reader function that begins the tag and (transitively)
     # reaches a block parse or a tracker.setPath
     reach_memo = {}
@@ -301,7 +314,7 @@ def run_xpath(chk, F, CG, rid="R-XPATH"):
     skipped = []
     for t, (strs, counts) in sorted(seg.items()):
         names = tm.get(t, set())
-        want = {"/" + x for x in names} | {"/" + x + "[" for x in names}
+        want = {"/" + x for x in names} | {"/" + x + "[" for x in names} | set(names)
         ok = bool(strs) and strs[0] in want and all(c == t for c in counts)
         if t not in relevant:
             if not ok:
@@ -454,3 +467,86 @@ def run_gap(chk, F, CG, rid="R-GAP"):
                "gap the end of a diagnostic that reaches the last character of a block resolves to the NEXT entry (the "
                "template marker: /nta/template[k] line 1 column 0)" %
                (key, "?" if r is None else r[0], "?" if r is None else r[1]), "%s:%s" % (fn["file"], fn["line"]))
+
+
+# --------------------------------------------------------------------------------------------- R-NODEPOS
+# Sites that build a node without a position, confirmed by reading: (function, factory, first-argument kind or None)
+# -> why no diagnostic can ever be attributed to that node.
+NODEPOS_EXEMPT = {
+    ("toMITLAtom", "create_unary", "MITL_ATOM"):
+        "MITL_ATOM wrapper: checkExpression's MITL_* clause assigns FORMULA and reports nothing on the node; the "
+        "wrapped operand and the enclosing MITL node are positioned (re-checked below: R-NODEPOS:exempt|MITL_ATOM)",
+    ("expr_MITL_diamond", "create_unary", "MITL_ATOM"): "as toMITLAtom (constant `true` operand of the until form)",
+    ("expr_MITL_box", "create_unary", "MITL_ATOM"): "as toMITLAtom (constant `false` operand of the release form)",
+    ("expr_scenario", "create_identifier", None):
+        "identifier of the LSC scenario inside a positioned SCENARIO node (property syntax `sat: name`); the name was "
+        "resolved before the node is built and the IDENTIFIER clause never reports",
+    ("exprScenario", "create_identifier", None):
+        "identifier of the observer automaton inside positioned DOT / SCENARIO2 nodes; resolved before the node is built",
+}
+BUILDER_FILES = ("ExpressionBuilder.cpp", "StatementBuilder.cpp", "DocumentBuilder.cpp", "ExpressionBuilder.hpp",
+                 "StatementBuilder.hpp", "DocumentBuilder.hpp", "PropertyBuilder.cpp", "property.cpp")
+
+
+def run_nodepos(chk, F, rid="R-NODEPOS"):
+    """TypeChecker::handleError reports at expr.get_position().  Every node the builders synthesise must therefore be
+    given a position when it is built: a defaulted `position_t{}` argument is the unknown position (INT_MAX), which
+    the position index resolves to the last line of the last block of the document."""
+    from ..inline import KindSlicer
+    chk.rule(rid, "every expression_t::create_* call in the builder sources passes a position argument (the builder's "
+                  "current `position`, or one taken from an operand): a defaulted or empty position_t makes any "
+                  "diagnostic on that node point to the end of the document; exemptions are listed one by one")
+    facts = {}
+    for f in F.functions.values():
+        if f.get("cls") == "UTAP::expression_t" and f["name"].startswith("create_"):
+            pi = [i for i, p in enumerate(f["params"]) if (p.get("ct") or p.get("t") or "").replace("const ", "").strip(" &")
+                  .endswith("position_t")]
+            if pi:
+                facts[f["name"]] = pi[0]
+    if len(facts) < 8:
+        raise AnalysisBroken("expression_t::create_* factories with a position parameter: %s" % sorted(facts))
+    n = 0
+    used = set()
+    for fn in F.functions.values():
+        fl = (fn.get("file") or "").split("/")[-1]
+        if fn.get("body") is None or fl not in BUILDER_FILES:
+            continue
+        for c in calls(fn["body"]):
+            if not (c.get("fn") or "").startswith("UTAP::expression_t::create_") or c.get("name") not in facts:
+                continue
+            i = facts[c["name"]]
+            args = c.get("args", [])
+            if i >= len(args):
+                continue
+            a = args[i]
+            while isinstance(a, dict) and a.get("k") in ("cast", "materialize"):
+                a = a["e"]
+            missing = a.get("k") == "defarg" or (a.get("k") == "construct" and not a.get("args") and
+                                                  (a.get("cls") or "").endswith("position_t"))
+            kind = args[0].get("name") if args and args[0].get("k") == "ref" and args[0].get("dk") == "enumerator" else None
+            key = (fn["name"], c["name"], kind)
+            n += 1
+            if missing and key in NODEPOS_EXEMPT:
+                used.add(key)
+                chk.ob(rid, "%s|%s|%s|exempt" % key, True, "", "%s:%s" % (fn["file"], c.get("l")),
+                       sample="%s: %s without position - exempt: %s" % (fn["name"], c["name"], NODEPOS_EXEMPT[key][:60]))
+                continue
+            chk.ob(rid, "%s|%s@%s" % (fn["name"], c["name"], kind or short(args[0])[:24]), not missing,
+                   "%s builds a %s node with %s and gives it no position (the position_t argument is defaulted): a "
+                   "type-checker diagnostic on that node is reported at the unknown position, which resolves to the "
+                   "last line of the document instead of the text that caused it" %
+                   (fn["q"], kind or "expression", c["name"]), "%s:%s" % (fn["file"], c.get("l")),
+                   sample="%s: %s(..., %s)" % (fn["name"], c["name"], short(a)[:30]))
+    if n < 40:
+        raise AnalysisBroken("only %d expression factory calls found in the builder sources" % n)
+    # the premise of the MITL_ATOM exemptions: the type checker reports nothing on such a node itself
+    if any(k[2] == "MITL_ATOM" for k in used):
+        ce = F.fn("UTAP::TypeChecker::checkExpression")
+        pname = ce["params"][0]["name"]
+        sl = KindSlicer(F, ce).slice("MITL_ATOM")
+        rep = [c for c in calls(sl) if c.get("name") in ("handleError", "handleWarning", "handle_error", "handle_warning")
+               and c.get("args") and c["args"][0].get("k") == "ref" and c["args"][0].get("name") == pname]
+        chk.ob(rid, "exempt|MITL_ATOM", not rep,
+               "checkExpression now reports a diagnostic on MITL_ATOM nodes themselves, but ExpressionBuilder builds "
+               "them without a position (toMITLAtom, expr_MITL_diamond, expr_MITL_box)",
+               "%s:%s" % (ce["file"], rep[0].get("l") if rep else ce["line"]))
